@@ -173,8 +173,13 @@ fn transform_js<R: Read>(
 ) -> Result<RewrittenOutput, Error> {
     let mut transform_status = TransformStatus::not_modified(config);
 
-    let mut block_transform_visitor = BlockTransformVisitor::default(&mut transform_status, config);
-    program.visit_mut_with(&mut block_transform_visitor);
+    // with an empty method list nothing can be instrumented, so no name of the file can clash with
+    // an injected one either: the file is not modified, whatever it contains
+    if !config.csi_methods.methods.is_empty() {
+        let mut block_transform_visitor =
+            BlockTransformVisitor::default(&mut transform_status, config);
+        program.visit_mut_with(&mut block_transform_visitor);
+    }
 
     let literals_result = get_literals(config.literals, file, &mut program, compiler);
     let comments = &compiler.comments().clone() as &dyn Comments;
